@@ -974,6 +974,8 @@ func GetConfiguration() (*Configuration, error) {
 		log.Printf("%v: field \"admin\" is obsolete, ignored", filename)
 		conf.Admin = nil
 	}
+	conf.modTime = fi.ModTime()
+	conf.fileSize = fi.Size()
 	configuration.configuration = &conf
 	return configuration.configuration, nil
 }
